@@ -177,10 +177,15 @@ def run_get_delegate(repo, sig, call, failing=None, convert_fails=None,
         vt = absint.Obj('type:%s' % key, hidden=(kind == 'hidden'),
                         check=absint.Sym('check#%s' % key),
                         convert=absint.Sym('convert#%s' % key))
-        params[key] = absint.Obj(
+        # the python name of a visible parameter is not the keyword it is
+        # passed by (trailing underscore, naming convention): the table is
+        # keyed by python name, callers use the alias
+        pyname = key + '_' if kind == 'plain' else key
+        params[pyname] = absint.Obj(
             'param:%s' % key, __class__=mod.classes.get(
                 'ParameterDefinition'),
-            name=key, alias=None, position=position,
+            name=pyname, alias=key if kind == 'plain' else None,
+            position=position,
             value_type=vt,
             default=val('default:' + key) if has_default else no_default)
     selfobj = absint.Obj('definition', __class__=ci, parameters=params,
@@ -309,7 +314,8 @@ def verdicts(repo):
                     gp = [(a.attrs.get('key'), a.attrs.get('vid'))
                           if isinstance(a, absint.Obj) else a
                           for a in pays[0][1]]
-                    gk = {k: (a.attrs.get('key'), a.attrs.get('vid'))
+                    gk = {k.rstrip('_'): (a.attrs.get('key'),
+                                          a.attrs.get('vid'))
                           if isinstance(a, absint.Obj) else a
                           for k, a in pays[0][2].items()}
                     if gp != list(exp[0]) or gk != exp[1]:
@@ -443,11 +449,13 @@ def map_verdicts(repo):
                         '%s: positional values and ** extras must be '
                         'type-checked: %s' % (desc, need))
                 pos, kw = mapping_shape(repo)[1](out[1]) or ((), {})
-                got_pos = [p.attrs.get('name') if isinstance(
-                    p, absint.Obj) else p for p in pos]
+                def _nm(p):
+                    return p.attrs.get('name').rstrip('_') if isinstance(
+                        p, absint.Obj) and isinstance(
+                        p.attrs.get('name'), str) else p
+                got_pos = [_nm(p) for p in pos]
                 want_pos = [k for k, v in exp[0] if v in call[0]]
-                got_kw = {k: (p.attrs.get('name') if isinstance(
-                    p, absint.Obj) else p) for k, p in kw.items()}
+                got_kw = {k: _nm(p) for k, p in kw.items()}
                 want_kw = {}
                 for k, v in call[1].items():
                     owner = [pk for pk, pv in exp[0] + list(
